@@ -23,6 +23,9 @@ package badger
 //@   ensures err == nil ==> !old(d.readOnly) && old(d.multipartVersion) == multipartVersionNone
 //@   ensures err == nil ==> old(d.meta.value.LastFinalizedVersion) != nil && version < old(*d.meta.value.LastFinalizedVersion) && version == old(d.meta.value.EarliestVersion)
 //@   precall badger/v4\.WriteBatch\)\.Delete$ :: exists && version < lastFinalizedVersion
+//@   closure 1 checked
+//@   precall badger/v4\.WriteBatch\)\.Delete$ :: defined(h) && keyId(argAs[[]byte](0)) == keyOf(nodeKeyFmt, h) ==> defined(item) && uf("tsToVersion", uf("badgerItemVersion", item)) == int(version)
+//@   note a NODE is deleted while a lone root of the pruned version is traversed only if the node was created in exactly that version (the timestamp of its database entry): older nodes a lone root shares with a sibling root that lives on in a later version are not garbage (seed C06_i deleted nodes created at or before the version). The traversal callback is executed with arbitrary nodes (closure 1 checked)
 //@   note data is removed only for a version that is finalized, is the earliest retained one and is not the last finalized one, and never on a read-only database or while a multipart restore is in progress: every other finalized version is left alone by Prune
 
 // ---- Finalize (C06): nodes inserted by a finalized root are never classified as garbage ----
